@@ -13,9 +13,10 @@
     change with the schema):
       KnownTypeNames, VariablesAreInputTypes, FragmentsOnCompositeTypes, FieldsOnCorrectType, ScalarLeafs,
       KnownArgumentNames, ProvidedRequiredArguments, KnownDirectives
-    NOT covered: VariablesInAllowedPosition, ValuesOfCorrectType (the shape facts they need are
-    `nobreaking_input_fields`, `nobreaking_enum_values_kept`, `nobreaking_field_arguments_any`: every argument /
-    input field keeps accepting what it accepted), OverlappingFieldsCanBeMerged (FALSE: finding G4).
+    covered elsewhere: ValuesOfCorrectType (`nobreaking_valuesOfCorrectType`, Props/C20_rules_values.lean) and
+    VariablesInAllowedPosition (`nobreaking_variablesInAllowedPosition`, Props/C20_rules_vars.lean); all 25 together:
+    `operations_stay_valid_rules_all` (Props/C20_rules_all.lean).
+    NOT covered: OverlappingFieldsCanBeMerged (FALSE: finding G4).
 
   Hypothesis `OpsRooted`: every operation of the document has a root type in the OLD schema. It cannot be dropped:
   the validator accepts `mutation { foo }` on a schema WITHOUT a mutation type (no rule looks at it), and adding
@@ -386,7 +387,12 @@ theorem nobreaking_knownDirectives (o n : SchemaD) (h : diffSchema o n 2 = []) (
   obtain ⟨sd', hn, hloc, _⟩ := nobreaking_V_findDirective o n h wn dr.name sd hsd
   exact ⟨sd', hn, fun a rest er => hloc _ (hl a rest er)⟩
 
-/-- **Operations stay valid, rule by rule (C06 specification predicates).** -/
+/-- **Operations stay valid, rule by rule (C06 specification predicates) - 8 of the schema-dependent rules (PARTIAL;
+    the name is kept because the evidence refers to it).** OMITS ValuesOfCorrectType and VariablesInAllowedPosition
+    (added by `operations_stay_valid_rules_all`, Props/C20_rules_all.lean), PossibleFragmentSpreads
+    (`nobreaking_possibleFragmentSpreads` below) and OverlappingFieldsCanBeMerged (FALSE: finding G4); ASSUMES `OpsRooted`
+    (necessary: finding G6). The clause as worded is `OperationsStayValidFull` (Props/C20_full.lean), refuted by
+    `operations_stay_valid_full_refuted`. -/
 theorem operations_stay_valid_rules (o n : SchemaD) (h : diffSchema o n 2 = []) (wo : OldWf o) (wn : NewWf n)
     (d : Doc) (hR : OpsRooted o d) (hv : SchemaRules o d) : SchemaRules n d := by
   have hinv := views_compatible o n h wo wn d hv.fieldsOnCorrectType
